@@ -106,6 +106,7 @@ class OppConsts(object):
             rdp.RDPNegotiationBase.PACKET_LENGTH, openvpn.OpenVpnPacketBase.HEADER_SIZE, postgresql.Sync.MESSAGE_SIZE,
             hx(postgresql.Sync.COMMAND), postgresql.SslRequest.MESSAGE_SIZE, postgresql.SslRequest.REQUEST_CODE,
             int(mysql.MySQLCapability.CLIENT_PROTOCOL_41), int(mysql.MySQLCapability.CLIENT_PLUGIN_AUTH),
+            int(mysql.MySQLCapability.CLIENT_SECURE_CONNECTION),
             int(rdp.COTPConnectionRequest._get_type()), int(rdp.COTPConnectionConfirm._get_type()),  # pylint: disable=protected-access
             int(rdp.RDPNegotiationRequest._get_type()), int(rdp.RDPNegotiationResponse._get_type()),  # pylint: disable=protected-access
             int(openvpn.OpenVpnPacketControlV1.get_op_code()), int(openvpn.OpenVpnPacketAckV1.get_op_code()),
